@@ -18,9 +18,8 @@ What is NOT modelled (third-party crates; parameters of the model): the curve ma
 (ed25519: `Signature::from_bytes`; ECDSA: `Signature::try_from`, which also rejects r, s ∉ [1, n-1]) and check the equation"
 (ed25519: `verify_strict`).  `sign` stands for RFC 8032 / RFC 6979 deterministic signing.
 
-Text: a signature-type string is a `List Char`.  The normalisation buffer holds UTF-8; the model keeps the characters written and
-accounts for their UTF-8 size (`Char.utf8Size`), i.e. comparing `NormalizedAlg` with `"eddsa"` bytewise is taken to be comparing
-character lists (injectivity of UTF-8, a fact about `core::str`, not askar).
+Text: a signature-type string (`&str`) is a `List Char`; the normalisation buffer holds its UTF-8 bytes (`String.utf8EncodeChar`,
+core Lean's RFC 3629 encoder), the 64-byte bound counts bytes, and the comparison with `"eddsa"` etc. is bytewise, as in the Rust.
 -/
 import AskarModel.Base.Bytes
 
@@ -94,46 +93,51 @@ end Res
 /-- capacity of `NormalizedAlg::buf` -/
 def normCap : Nat := 64
 
-/-- `Writer<[u8]>` over a slice of `total` bytes.  `content` = the characters whose UTF-8 bytes occupy `inner[..pos]`. -/
+/-- `str::as_bytes` / `char::encode_utf8`: UTF-8 of a character list -/
+def encode (cs : List Char) : Bytes := cs.flatMap String.utf8EncodeChar
+
+/-- `Writer<[u8]>` over a slice of `total` bytes; `written` = `inner[..pos]`, so `pos = written.length` -/
 structure Writer where
   total : Nat
-  pos : Nat
-  content : List Char
+  written : Bytes
   deriving Repr, DecidableEq
 
-/-- `buffer_write(c.encode_utf8(..).as_bytes())`:
-    `end = pos + len; if end > total { Err(ExceededBuffer) }; inner[pos..end].copy_from_slice(data); pos += len` -/
-def Writer.write (w : Writer) (c : Char) : Res CErr Writer :=
-  let end_ := w.pos + c.utf8Size
+def Writer.pos (w : Writer) : Nat := w.written.length
+
+/-- `buffer_write(data)`:
+    `end = pos + data.len(); if end > total { Err(ExceededBuffer) }; inner[pos..end].copy_from_slice(data); pos += data.len()` -/
+def Writer.write (w : Writer) (data : Bytes) : Res CErr Writer :=
+  let end_ := w.pos + data.length
   if end_ > w.total then .err .exceededBuffer
   else if w.pos ≤ end_ ∧ end_ ≤ w.total then            -- bounds check of `self.inner[self.pos..end]`
-    .ok { w with pos := end_, content := w.content ++ [c] }
+    .ok { w with written := w.written ++ data }
   else .panic "writer.rs: inner[pos..end]"
 
 /-- `c != '-' && c != '_' && c != ' '` fails -/
 def isSep (c : Char) : Bool := c == '-' || c == '_' || c == ' '
 
-/-- the loop of `NormalizedAlg::new` fused with `NormalizedIter::next` (skip separators, `to_ascii_lowercase`, write; the first
-    write that does not fit ends the loop with the error) -/
+/-- the loop of `NormalizedAlg::new` fused with `NormalizedIter::next` (skip separators, `to_ascii_lowercase`, encode, write; the
+    first write that does not fit ends the loop with the error) -/
 def fill (w : Writer) : List Char → Res CErr Writer
   | [] => .ok w
   | c :: rest =>
     if isSep c then fill w rest
-    else (w.write c.toLower).bind fun w' => fill w' rest
+    else (w.write (String.utf8EncodeChar c.toLower)).bind fun w' => fill w' rest
 
-/-- `NormalizedAlg { len, buf }` -/
+/-- `NormalizedAlg { len, buf }`, `buf : [u8; 64]` zero-initialised -/
 structure NormalizedAlg where
   len : Nat
-  content : List Char
+  buf : Bytes
   deriving Repr, DecidableEq
 
 /-- `NormalizedAlg::new` -/
 def normalizeAlg (s : List Char) : Res CErr NormalizedAlg :=
-  (fill { total := normCap, pos := 0, content := [] } s).bind fun w => .ok { len := w.pos, content := w.content }
+  (fill { total := normCap, written := [] } s).bind fun w =>
+    .ok { len := w.pos, buf := w.written ++ List.replicate (normCap - w.pos) 0 }
 
 /-- `as_ref`: `&self.buf[..self.len]` -/
-def NormalizedAlg.asRef (n : NormalizedAlg) : Res CErr (List Char) :=
-  if n.len ≤ normCap then .ok n.content else .panic "alg/mod.rs: buf[..len]"
+def NormalizedAlg.asRef (n : NormalizedAlg) : Res CErr Bytes :=
+  if n.len ≤ n.buf.length then .ok (n.buf.take n.len) else .panic "alg/mod.rs: buf[..len]"
 
 /-! ## `SignatureType` -/
 
@@ -141,7 +145,7 @@ inductive SignatureType
   | eddsa | es256 | es256k | es384
   deriving DecidableEq, Repr, Inhabited
 
-/-- the string each arm of `from_str` compares with -/
+/-- the name each arm of `from_str` compares with -/
 def SignatureType.canonical : SignatureType → List Char
   | .eddsa => "eddsa".toList
   | .es256 => "es256".toList
@@ -153,13 +157,13 @@ def SignatureType.signatureLength : SignatureType → Nat
   | .eddsa | .es256 | .es256k => 64
   | .es384 => 96
 
-/-- `impl FromStr for SignatureType` -/
+/-- `impl FromStr for SignatureType` (`a == "eddsa"` is `a.as_ref() == "eddsa".as_ref()`, bytewise) -/
 def SignatureType.fromStr (s : List Char) : Res CErr SignatureType :=
   (normalizeAlg s).bind fun n => n.asRef.bind fun a =>
-    if a = "eddsa".toList then .ok .eddsa
-    else if a = "es256".toList then .ok .es256
-    else if a = "es256k".toList then .ok .es256k
-    else if a = "es384".toList then .ok .es384
+    if a = encode "eddsa".toList then .ok .eddsa
+    else if a = encode "es256".toList then .ok .es256
+    else if a = encode "es256k".toList then .ok .es256k
+    else if a = encode "es384".toList then .ok .es384
     else .err .unsupported
 
 /-- `sig_type.map(SignatureType::from_str).transpose()?` -/
